@@ -1,28 +1,52 @@
 /-
   C15 — obligations about the REGENERATED facts (Generated/C15.lean, rewritten from the Go source on every run).
-  A source change that replaces the rounding conversion (or converts some output value without it), alters the
-  "not a deposit" test, the script-type constants, the 10^10 multiplier, the destination parser's base/width or the
-  payload separator makes one of these fail to check.
+
+  Every fact is an `Option`: `none` = the translator could not locate the anchor in the current source in a shape it
+  understands (the obligation is then vacuous, bin/check prints `T-TIE-UNAVAILABLE`, and the correspondence ops — decode,
+  convrange, handle, process, events — carry the property alone).  A fact that IS located must satisfy its obligation, and
+  the obligations are semantic: renaming locals / the conversion helper / the receiver, swapping the operands of a
+  comparison, `Cmp(..) == -1` vs `< 0`, one `||` test vs two early returns, a named constant for 1e8 … all still satisfy
+  them; truncating instead of rounding, converting one use without rounding, another fee comparison, another multiplier,
+  another ParseUint width do not.
 -/
 import SygmaModel.Model.C15
 import SygmaModel.Generated.C15
 namespace Sygma.C15
 
 /-- every use of an output's float value goes through `int64(math.Round(v * 1e8))` — the conversion `conversion_exact` is about -/
-theorem gen_conversion : Generated.C15.convRoundsProduct = true ∧ Generated.C15.roundedUses = Generated.C15.valueUses ∧
-    Generated.C15.valueUses = 2 := by decide
+theorem gen_conversion : ∀ c, Generated.C15.conversion = some c → 0 < c.1 ∧ c.2.1 = c.1 ∧ c.2.2 = 0 := by
+  intro c hc
+  unfold Generated.C15.conversion at hc
+  cases hc
+  all_goals decide
 
-/-- not a deposit ⇔ the bridge address is not paid, or the fee sum compares below (`Cmp = -1`) the threshold: the model's
-    `!s.bridge || s.fee < feeAmount` -/
-theorem gen_fee_test :
-    Generated.C15.notDepositCond = "!isBridgeDeposit || (feeAmount.Cmp(resource.FeeAmount) == -1)" := by decide
+/-- "not a deposit" ⇔ the bridge address is not paid, or the fee sum is below the threshold: the model's
+    `!s.bridge || s.fee < feeAmount`, however the source spells it -/
+theorem gen_fee_test : ∀ f, Generated.C15.notDeposit = some f →
+    ∀ (b : Bool) (fee thr : Int), f b fee thr = (!b || decide (fee < thr)) := by
+  intro f hf
+  unfold Generated.C15.notDeposit at hf
+  cases hf
+  all_goals (intro b fee thr; cases b <;> first | rfl | (simp <;> omega) | (rw [Bool.eq_iff_iff] <;> simp <;> omega))
 
-theorem gen_types : Generated.C15.taprootType = "witness_v1_taproot" ∧ Generated.C15.nulldataType = "nulldata" := by decide
+theorem gen_types : ∀ t, Generated.C15.scriptTypes = some t → t = ("witness_v1_taproot", "nulldata") := by
+  intro t ht
+  unfold Generated.C15.scriptTypes at ht
+  cases ht
+  all_goals decide
 
 /-- the multiplier is 10^10, the factor `handleDeposit` applies -/
-theorem gen_scale : Generated.C15.scaleBase ^ Generated.C15.scaleExp = 10 ^ 10 := by decide
+theorem gen_scale : ∀ s, Generated.C15.scale = some s → s.1 ^ s.2 = 10 ^ 10 := by
+  intro s hs
+  unfold Generated.C15.scale at hs
+  cases hs
+  all_goals decide
 
 /-- destination = `ParseUint(second field, 10, 8)`, fields separated by `_` (0x5f) -/
-theorem gen_payload : Generated.C15.parseUintArgs = ["parsedData[1]", "10", "8"] ∧ Generated.C15.separator = "_" := by decide
+theorem gen_payload : ∀ p, Generated.C15.payload = some p → p = (1, "_", 10, 8) := by
+  intro p hp
+  unfold Generated.C15.payload at hp
+  cases hp
+  all_goals decide
 
 end Sygma.C15
